@@ -8,7 +8,7 @@
    _bounded are additional kernel computations over complete finite domains. *)
 From Coq Require Import ZArith List Bool.
 Import ListNotations.
-From CF Require Import ZSum ListAux Defs Core Machines Config ConfigLink BoundsLink ParkingLink ParkingCount PyLib Translated TranslatedLink Det LatticeIndex MatrixTree PyDict ImpRep ImpLinkScript TranslatedImpCFConfig ImpLinkConfig TranslatedImpCFConfigMoves ImpLinkConfigMoves ImpLinkConfigOrder ImpLinkConfigLegal.
+From CF Require Import ZSum ListAux Defs Core Machines Config ConfigLink BoundsLink ParkingLink ParkingCount PyLib Translated TranslatedLink Det LatticeIndex MatrixTree PyDict ImpRep ImpLinkScript TranslatedImpCFConfig ImpLinkConfig TranslatedImpCFConfigMoves ImpLinkConfigMoves ImpLinkConfigOrder ImpLinkConfigLegal ImpLinkConfigSuper.
 Open Scope Z_scope.
 
 Theorem C10_legal : forall g, wfb g = true -> forall D S, (forall v, In v S -> In v (Vg g)) ->
@@ -143,6 +143,15 @@ Theorem C10_source_is_legal_set_firing : forall g gg vs q vt dd D so U, wfb g = 
   CFConfigMoves_is_legal_set_firing q vt vs dd gg so U = match is_legal_set_firing g q D U with Err => PyExn tt | Ok b => PyOk b end.
 Proof. intros g gg vs q vt dd D so U Hwf Hg Hvs Hnd Hvt Hq HD Hso. apply is_legal_set_firing_refines; assumption. Qed.
 Print Assumptions C10_source_is_legal_set_firing.
+
+(* CFConfig.is_superstable translated from the CURRENT source: the non-negativity test, then for every size i = 1 .. |V - {q}| every itertools.combinations(V - {q}, i) - the
+   subsequences of whatever order Python iterates the set in - is put to the translated is_legal_set_firing. The answer is exactly superstable_enum, i.e. (C10_superstable)
+   superstability as defined and (C10_superstable_eq_burn) Dhar's criterion; no exception can escape *)
+Theorem C10_source_is_superstable : forall g gg vs q vt dd D so, wfb g = true -> rep_graph gg g -> rep_vset (nv g) vs -> NoDup vs -> rep_vtilde (nv g) q vt -> NoDup vt -> (q < nv g)%nat ->
+  rep_div (nv g) dd D -> (forall l, Permutation.Permutation (so l) l) ->
+  CFConfigMoves_is_superstable vt q dd vs gg so = PyOk (superstable_enum g q D).
+Proof. intros g gg vs q vt dd D so Hwf Hg Hvs Hnd Hvt Hndt Hq HD Hso. apply is_superstable_refines; assumption. Qed.
+Print Assumptions C10_source_is_superstable.
 
 (* ---- bounded identities (complete finite domains, kernel computation) ---- *)
 (* K_(n+1), n <= 4, sink 0: a configuration in the box [0..n]^n is superstable iff shifting it up by one gives a parking function *)
